@@ -18,7 +18,7 @@ func init() {
 			"documented limits of the property: definite lengths, ints within int64, no tags, shortest-form tag/array heads of the COSE structures themselves"},
 		Real:      []string{"github.com/veraison/go-cose decoders and verifiers", "github.com/fxamacker/cbor/v2", "Go crypto"},
 		Stubs:     []string{"foreign peer = reference model (refcbor/refcose) + Go crypto", "entropy source", "wire (byte copy)"},
-		QuickRuns: 6000, ThoroughRuns: 150000,
+		QuickRuns: 150000, ThoroughRuns: 2500000,
 	}
 }
 
